@@ -3,6 +3,7 @@ C18 helper lemmas, part E: dictionaries, header counting at the end of a history
 registered statistics functions.
 -/
 import DeapModel.Lemmas.C18Hist
+import DeapModel.Lemmas.C18Deep
 import Mathlib.Data.List.Induction
 
 set_option linter.unusedSimpArgs false
